@@ -87,19 +87,24 @@ def _M(R, s):
     return M
 
 
-def h_mean(B, ndata, solver, signal_space):
+def h_mean(B, ndata, solver, signal_space, linearize=False):
     J = jft()
     R, d, s = _model(B, ndata)
-    def run(R, d, s):
+    pos = B.reals("p", (2,)) if linearize else None
+
+    def run(R, d, s, pos=None):
         lh = _lh(R, d, s)
+        extra = {"model_is_linear": False, "position": pos} if linearize else {}
         kw = {"cg": exact_solve} if solver == "exact" else {"cg": _real_cg, "cg_kwargs": {"maxiter": 2 if signal_space else ndata, "miniter": 2 if signal_space else ndata, "absdelta": None, "resnorm": None}}
         smp, _ = J.wiener_filter_posterior(lh, key=jax.random.PRNGKey(0), n_samples=0, draw_linear_kwargs=kw, jit=False,
-                                           signal_space=signal_space, noise_covariance=(lambda x: x / (s * s)))
+                                           signal_space=signal_space, noise_covariance=(lambda x: x / (s * s)), **extra)
         return smp.pos
-    m = np.asarray(jcall(B, run, R, d, s, while_bound=4), dtype=object).reshape(-1)
+    args = (R, d, s, pos) if linearize else (R, d, s)
+    m = np.asarray(jcall(B, run, *args, while_bound=4), dtype=object).reshape(-1)
     M = _M(R, s)
     j = np.array([sum(R[k, i] * s[k] * s[k] * d[k] for k in range(ndata)) for i in range(2)], dtype=object)
-    B.eq(f"(1 + R^T N^-1 R) m == R^T N^-1 d  ({'signal' if signal_space else 'data'} space, solver={solver})", list(M @ m), list(j))
+    B.eq(f"(1 + R^T N^-1 R) m == R^T N^-1 d  ({'signal' if signal_space else 'data'} space, solver={solver}"
+         f"{', linearised at an arbitrary position' if linearize else ''})", list(M @ m), list(j))
 
 
 def h_samples(B, ndata, nsamples):
@@ -206,6 +211,8 @@ def scenarios(tier, seed):
     quick = [("mean", {"ndata": 2, "solver": "exact", "signal_space": True}),
              ("mean", {"ndata": 2, "solver": "exact", "signal_space": False}),
              ("mean", {"ndata": 1, "solver": "exact", "signal_space": False}),
+             ("mean", {"ndata": 2, "solver": "exact", "signal_space": True, "linearize": True}),
+             ("mean", {"ndata": 1, "solver": "exact", "signal_space": False, "linearize": True}),
              ("samples", {"ndata": 2, "nsamples": 1}),
              ("cov", {"ndata": 1}),
              ("curvature", {"ndata": 2})]
